@@ -164,7 +164,8 @@ def emit(ctx: Ctx, wall_s: float, seed: int, quiet: bool = False) -> int:
 
 
 def write_evidence(ctx: Ctx, wall_s: float, seed: int, n_new: int, n_known: int) -> None:
-    os.makedirs(os.path.join(VERIF, "evidence"), exist_ok=True)
+    evdir = os.environ.get("VERIF_EVIDENCE_DIR") or os.path.join(VERIF, "evidence")   # developer runs against seeded trees write elsewhere
+    os.makedirs(evdir, exist_ok=True)
     obs = ctx.obligations
     distinct = {(o.rule, o.instance) for o in obs}
     by_rule: dict[str, dict[str, int]] = {}
@@ -206,7 +207,7 @@ def write_evidence(ctx: Ctx, wall_s: float, seed: int, n_new: int, n_known: int)
         "wall_s": round(wall_s, 3),
         "violations": n_new,
     }
-    path = os.path.join(VERIF, "evidence", f"{ctx.prop}.json")
+    path = os.path.join(evdir, f"{ctx.prop}.json")
     tmp = path + ".tmp"
     with open(tmp, "w") as f:
         json.dump(ev, f, indent=1, default=str)
